@@ -183,6 +183,40 @@ func propC16(o *out, r *rng, thorough bool) {
 	for i := 0; i < nq; i++ {
 		c16Query(o, r)
 	}
+	// long queries: nothing carries over from one statement to the next, however many there are and whatever they
+	// contain (calls without arguments, parentheses, subqueries, errors' worth of nesting)
+	for _, unit := range []string{"SELECT now() FROM m", "SELECT count() FROM m WHERE time > now()", "SELECT ((a)) FROM (SELECT b FROM m)", "SHOW DATABASES", "SELECT f(g(h())) FROM m GROUP BY time(1m, now())",
+		"SELECT v FROM m WHERE (((x = 1)))", "DROP SERIES FROM m WHERE (host = 'a')"} {
+		for _, n := range []int{201, 257, 1025} {
+			if !thorough && n > 300 {
+				continue
+			}
+			st, err := influxql.ParseStatement(unit)
+			if err != nil {
+				continue
+			}
+			qt := strings.Repeat(unit+";", n-1) + unit
+			o.checked()
+			o.count("long-query")
+			q, qerr := influxql.ParseQuery(qt)
+			rp := map[string]interface{}{"op": "long_query", "text": unit, "n": n}
+			if qerr != nil {
+				o.fail("", fmt.Sprintf("ParseQuery of %d copies of %q joined by ';' fails: %v", n, unit, qerr), rp)
+				continue
+			}
+			if len(q.Statements) != n {
+				o.fail("", fmt.Sprintf("ParseQuery of %d copies of %q yields %d statements", n, unit, len(q.Statements)), rp)
+				continue
+			}
+			want := stmtSexp(st)
+			for i, s := range q.Statements {
+				if stmtSexp(s) != want {
+					o.fail("", fmt.Sprintf("statement %d of %d copies of %q differs from parsing it alone: %s", i, n, unit, s.String()), rp)
+					break
+				}
+			}
+		}
+	}
 	// every statement kind directly followed by a single separator and another statement
 	for _, kind := range stmtKinds {
 		reps := 6
